@@ -5,7 +5,7 @@ import os
 from .. import gen
 
 RULE = (
-    "case = random index of 1-40 entries: every combination of optional Meta fields incl. falsy values (size 0, nfiles 0, '' "
+    "case = random index of 1-40 entries (3 %: 998-2600 entries, around batch sizes and SQL parameter limits): every combination of optional Meta fields incl. falsy values (size 0, nfiles 0, '' "
     "strings, isexec False), hash under md5 / md5-dos2unix / sha256 / blake3 with and without '.dir', hash absent or with a None "
     "value, loaded in {None, True, False}, non-ASCII / control-character key parts, nested keys, a key that is a prefix of "
     "another; persisted through write_json/read_json, write_db/read_db and the SQLite-backed index (set, commit, close, reopen; "
@@ -18,7 +18,7 @@ ASSUMPTIONS = [
     "with-metadata listings are parsed back for hash names that Meta has a field for (md5, md5-dos2unix, etag, checksum); other names cannot be represented in that form",
 ]
 MONITORS = "projection of every entry compared before/after each persistent form"
-REQUIRED_COUNTERS = ["same_key_histories", "sqlite_lazy_roundtrips", "json_roundtrips", "db_roundtrips", "sqlite_roundtrips", "dict_roundtrips", "tree_list_roundtrips", "sqlite_root_key_cases", "falsy_field_entries"]
+REQUIRED_COUNTERS = ["large_indexes", "same_key_histories", "sqlite_lazy_roundtrips", "json_roundtrips", "db_roundtrips", "sqlite_roundtrips", "dict_roundtrips", "tree_list_roundtrips", "sqlite_root_key_cases", "falsy_field_entries"]
 
 
 def mproj(m):
@@ -88,6 +88,10 @@ def run_shard(ctx):
 
     def rindex(rng, allow_root):
         n = rng.randrange(1, 41) if rng.random() < 0.7 else rng.randrange(1, 6)
+        if rng.random() < 0.03:
+            # a large index, around the batch sizes / SQL parameter limits a persistent form may use
+            n = rng.choice([998, 999, 1000, 1001, 1024, 2000, 2001, 2600])
+            res.count("large_indexes")
         entries = {}
         keys = []
         for _ in range(n):
